@@ -10,7 +10,7 @@ SPEC = {
         "GCS parameters restricted to P <= 32 and M <= 2^(P+3) (quotients stay short); sets up to 20,000 elements",
     ],
     "stages": [
-        gen("vh_c51", "c51_gcs", 30000, 500000, min_cases_quick=5000,
+        gen("vh_c51", "c51_gcs", 24000, 400000, min_cases_quick=5000,
             floors={"gcs-set": 0.5, "blockfilter-basic": 0.08, "quotient>=2": 0.2, "repeated-elements": 0.2, "bip158-basic-params": 0.15, "empty-set": 0.02, "set>=2000": 0.002},
             rule="GCS encoding == own BIP158 encoder, all elements match (also after re-parse); BlockFilter(BASIC) vs own element rule"),
         gen("vh_c51", "c51_bloom", 30000, 500000, min_cases_quick=5000,
